@@ -2,6 +2,7 @@ import RattrDriver.JsonUtil
 import RattrModel.Swaps
 import RattrModel.Spec.PyBind
 import RattrModel.Results
+import RattrModel.SrcCall
 
 namespace Rattr.Driver.C04
 open Lean Rattr Rattr.Driver
@@ -34,10 +35,38 @@ def errStr : Spec.BindErr → String
   | .unexpectedKeyword => "unexpectedKeyword"
   | .missingRequired => "missingRequired"
 
-/-- op `swaps`: model of construct_call_swaps and the Python-binding spec on the same case. -/
+/-- the call as written: `{"pos": [[starred?, spelling]], "kws": [[name | null, spelling]], "self": name | null}` -/
+def parseSrc (j : Json) : R (SrcCall String × Option String) := do
+  let pos ← (← asArr (← field j "pos")).mapM fun p => do
+    match (← asArr p) with
+    | [b, s] => return ((← asBool b), (← asStr s))
+    | _ => throw "pos entry must be [bool, str]"
+  let kws ← (← asArr (← field j "kws")).mapM fun p => do
+    match (← asArr p) with
+    | [k, v] => return ((← asOptStr k), (← asStr v))
+    | _ => throw "kws entry must be [str|null, str]"
+  return ({ pos := pos, kws := kws }, (← asOptStr (fieldD j "self" Json.null)))
+
+def parseWarn : String → R Diag.WarnLevel
+  | "none" => pure .none | "local" => pure .local_ | "default" => pure .default | "all" => pure .all
+  | w => throw s!"unknown warning level {w}"
+
+def levelStr : Diag.Level → String
+  | .info => "info" | .warning => "warning" | .error => "error" | .fatal => "fatal"
+
+/-- op `swaps`: model of construct_call_swaps and the Python-binding spec on the same case. With `src`
+(the call as written) the recorded call is first computed by the model of `CallArguments.from_call`
+(returned as `recorded`); with `cfg` (`{"warn", "strict"}`) the lines the arity diagnostics put on
+stderr under that configuration are returned as `printed`. -/
 def handle (payload : Json) : R Json := do
   let sig ← parseSig (← field payload "sig")
-  let call ← parseCall (← field payload "call")
+  let src? : Option (SrcCall String × Option String) ←
+    match payload.getObjVal? "src" with
+    | .ok j => pure (some (← parseSrc j))
+    | .error _ => pure none
+  let call ← match src? with
+    | some (sc, self) => pure (SrcCall.toArgs self sc)
+    | none => parseCall (← field payload "call")
   let (sw, ds) := Swaps.construct si sig.iface call
   let spec : Json := match Spec.pyBind sig call with
     | .error e => Json.mkObj [("err", errStr e)]
@@ -46,7 +75,20 @@ def handle (payload : Json) : R Json := do
         ("kwargGot", jPairList b.kwargGot),
         ("expected", jPairList (Spec.expectedSwaps si sig b)),
         ("expectedLenient", jPairList (Spec.expectedSwapsLenient si sig b))])]
-  return Json.mkObj [("swaps", jPairList sw), ("diags", jList (ds.map diagJson)), ("spec", spec)]
+  let extra1 : List (String × Json) := match src? with
+    | some (sc, _) => [("recorded", Json.mkObj [("args", jStrList call.args), ("kwargs", jPairList call.kwargs)]),
+                       ("starredErrors", Json.num sc.starredErrors)]
+    | none => []
+  let extra2 : List (String × Json) ←
+    match payload.getObjVal? "cfg" with
+    | .ok j => do
+      let cfg : Diag.Cfg := { strict := (← asBool (← field j "strict")), threshold := 0,
+                              warnLevel := (← parseWarn (← asStr (← field j "warn"))),
+                              collapseHome := false, truncateDeep := false }
+      let o := Diag.runEvents cfg Diag.State.init (SrcCall.arityEvents ds)
+      pure [("printed", jStrList (o.printed.map fun l => levelStr l.level)), ("exited", Json.bool o.exited)]
+    | .error _ => pure []
+  return Json.mkObj ([("swaps", jPairList sw), ("diags", jList (ds.map diagJson)), ("spec", spec)] ++ extra1 ++ extra2)
 
 /-! op `unbind`: the substitution AS USED for inlining — `unbind_ir_with_call_swaps(ir, swaps)` with
 `swaps` either given (any dict) or computed by `construct_call_swaps` from `sig` + `call`. -/
